@@ -31,8 +31,10 @@ import (
 
 // Proto is the protocol-level part of the configuration (must be equal on every node of a case).
 type Proto struct {
-	SRH bool   // StateRootInHeader
-	MTB uint32 // MaxTraceableBlocks (0 = neotest default 1000)
+	SRH   bool   // StateRootInHeader
+	MTB   uint32 // MaxTraceableBlocks (0 = neotest default 1000)
+	P2PSE bool   // P2PStateExchangeExtensions
+	SSI   int    // StateSyncInterval
 }
 
 // Local is the node-local part of the configuration.
@@ -50,6 +52,10 @@ func cfgHook(p Proto, l Local) func(*config.Blockchain) {
 		}
 		c.RemoveUntraceableBlocks = l.RUB
 		c.GarbageCollectionPeriod = l.GCP
+		if p.P2PSE {
+			c.P2PStateExchangeExtensions = true
+			c.StateSyncInterval = p.SSI
+		}
 	}
 }
 
